@@ -3,6 +3,7 @@
    same answer in both.  `fault` = the backend call of a mutation raises. *)
 From Coq Require Import ZArith List Bool Permutation.
 From Vakt Require Import Base.PyMonad Model.Store Proofs.StoreP Proofs.EnfoldP.
+From Vakt Require Import Base.PyVal Model.Rules Model.Policy Model.Guard Proofs.GuardP.
 Import ListNotations.
 
 Section C12.
@@ -54,7 +55,32 @@ Section C12.
     (forall u v, s_get K V keq u (e_backend K V st) = Some v -> enfold_reads_backend keq st (Get u) = false) /\
     (forall b, (0 < b)%Z -> e_backend K V st <> [] -> enfold_reads_backend keq st (RetrieveAll b) = false).
   Proof. apply enfold_no_backend_touch. assumption. Qed.
+
+  (* candidate search through the populated cache: the cache's candidates are the backend's policies (in the cache's
+     order); only an empty cache asks the backend *)
+  Theorem C12_find : forall bfind st, coherent K V keq st ->
+    Permutation (enfold_find K V bfind st) (e_backend K V st) \/
+    (e_cache K V st = [] /\ e_backend K V st = [] /\ enfold_find K V bfind st = bfind []).
+  Proof.
+    intros bfind st Hco. pose proof (coherent_perm K V keq keq_eq st Hco) as Hp. unfold enfold_find.
+    destruct (e_cache K V st) as [|x c] eqn:Ec; [|left; exact Hp].
+    right. apply Permutation_nil in Hp. rewrite Hp. auto.
+  Qed.
 End C12.
+
+(* decisions made through the enfolding cache equal decisions made directly over the backend: the guard sees the
+   cache's candidates, a permutation of the backend's policies, and the decision does not depend on the order (C01).
+   `bfind` is the backend's own candidate search; for the empty store it has nothing to return. *)
+Theorem C12_decisions_equal : forall (K : Type) keq, (forall a b : K, keq a b = true <-> a = b) ->
+  forall fits_ q bfind (st : enfold K policy), coherent K policy keq st -> bfind [] = [] ->
+  benign_all fits_ q (map snd (e_backend K policy st)) ->
+  decide fits_ (map snd (enfold_find K policy bfind st)) q = decide fits_ (map snd (e_backend K policy st)) q.
+Proof.
+  intros K keq Hk fits_ q bfind st Hco Hb Hben.
+  destruct (C12_find K policy keq Hk bfind st Hco) as [Hp|[_ [Eb Ef]]].
+  - symmetry. apply decide_perm; [exact Hben|]. apply Permutation_map, Permutation_sym, Hp.
+  - rewrite Ef, Hb, Eb. reflexivity.
+Qed.
 
 Print Assumptions C12_populate.
 Print Assumptions C12_history.
@@ -62,6 +88,8 @@ Print Assumptions C12_same_policies.
 Print Assumptions C12_mutation.
 Print Assumptions C12_reads.
 Print Assumptions C12_no_backend_touch.
+Print Assumptions C12_find.
+Print Assumptions C12_decisions_equal.
 
 Example C12_nonvacuous :
   let st := populate nat nat Nat.eqb Nat.ltb Insertion {| e_backend := [(1, 10); (2, 20); (3, 30)]; e_cache := [] |} 2 in
